@@ -58,6 +58,7 @@ Local Notation stop_movables := (RE.stop_movables P D dev).
 Local Notation call_pausables := (RE.call_pausables P D dev).
 Local Notation record_interruptions := (RE.record_interruptions P D).
 Local Notation request_pause := (RE.request_pause P D).
+Local Notation request_pause_in_task := (RE.request_pause_in_task P D).
 Local Notation exec_cmd := (RE.exec_cmd P D dev).
 Local Notation exec_start_suspender := (RE.exec_start_suspender P plan_of D dev).
 Local Notation finalize := (RE.finalize P presume D dev).
@@ -162,11 +163,19 @@ Ltac solve_xr :=
   unfold xr in *; simp_st;
   try reflexivity; try congruence.
 
+Lemma request_pause_in_task_xr s d s' e o : request_pause_in_task s d = (s', e, o) -> xr s' = xr s.
+Proof.
+  unfold RE.request_pause_in_task. destruct (request_pause s d) as [[s1 e1] o1] eqn:E.
+  apply request_pause_xr in E. intros H; inversion H; subst; clear H. destruct (RE.resumable P D s); exact E.
+Qed.
+
 Lemma exec_cmd_xr s m s' c o : exec_cmd s m = (s', c, o) -> xr s' = xr s.
 Proof.
   unfold RE.exec_cmd, RE.get_bundler. intros H.
   destruct (mcmd m);
-    repeat (bm_hyp H); use_xr; inversion H; subst; clear H;
+    repeat (bm_hyp H); use_xr;
+    repeat match goal with Hx : request_pause_in_task _ _ = _ |- _ => apply request_pause_in_task_xr in Hx end;
+    inversion H; subst; clear H;
     rewrite ?reset_checkpoint_xr; try (unfold xr in *; simp_st; congruence).
 Qed.
 
